@@ -57,13 +57,14 @@ func (v1pr Vector1PropertyReader) buildAscii(element Element) asciiPropertyReade
 	return nil
 }
 
-// asciiBitSize is the precision a scalar's text is parsed with: double
-// properties keep all 64 bits, everything else fits in 32
+// asciiBitSize is the precision a scalar's text is parsed with: float
+// properties are 32 bits wide, double and 32-bit integer properties need 64
+// bits to be represented exactly
 func asciiBitSize(t ScalarPropertyType) int {
-	if t == Double {
-		return 64
+	if t == Float {
+		return 32
 	}
-	return 32
+	return 64
 }
 
 type builtAsciiVector1PropertyReader struct {
